@@ -3,23 +3,72 @@
 import json, os
 ROOT = os.path.dirname(os.path.abspath(__file__))
 
-TECH = "property-based testing (pgregory.net/rapid) + exhaustive enumeration of small finite spaces"
-CHECKS = {
- "C18": dict(
-   technique="exhaustive enumeration of (block size, request count) + rapid state machine (Get/write/read-back) against a pointer-identity model",
-   text="Exploration: every (block size 1..64, request count 0..5*size+3) history of both pools is enumerated exhaustively, the default 1024 size around 1..6 boundaries, plus rapid-drawn sizes up to 8192 and a rapid state machine; each returned object is stamped and all earlier objects re-read. Exhaustive for the small sizes, sampled beyond; no proof for all sizes.",
-   note="Trusts Go's unsafe.Pointer identity for distinctness and the GC keeping old blocks alive; sizes > 8192 not explored.",
-   ref="DESIGN.md §2 C18"),
-}
-NOT_YET = {}
+C = {}
+def add(pid, technique, text, note):
+    C[pid] = dict(technique=technique, text=text, note=note, ref="DESIGN.md §2 " + pid)
+
+add("C01", "property-based testing (rapid) over byte-level generators + exhaustive prefix enumeration of the repository's snippets; oracle: no panic / returns under watchdog / err == nil / input buffer unchanged; thorough adds native go test -fuzz",
+    "Exploration: every byte prefix of every repository test snippet with hostile tails, hundreds of thousands of mutated / dictionary-soup / random inputs x versions x {callback, nil}, PHP 5 semantic-error programs without callback, and a 4x-size-vs-time smoke test on ten 0.3-1.2 MB shapes. No proof of absence.",
+    "Linear time is only a coarse wall-clock guard (best of 3, 10x bound for 4x size); inputs > 1.2 MB not explored; hangs are detected by a 20 s watchdog.")
+add("C02", "property-based testing (rapid): grammar-based program generator with drawn trivia + byte-level inputs; round-trip oracle print(parse(src)) == src, with an independent token render to localise faults",
+    "Exploration: generated programs of both families under four trivia policies incl. CRLF, comments, shebang, close tags, heredocs, > 2 pool blocks; error-free byte-level inputs. Byte-exact comparison.",
+    "Generated programs avoid the constructs behind open findings (counted in the evidence); lone CR between tokens is excluded because of finding lone-cr-newline.")
+add("C03", "property-based testing (rapid): programs generated as token-bearing ast trees from an independent model (constructors per construct, PHP manual precedence table); oracle: zero errors and structural + token + position equality with the model; negative version-gating cases",
+    "Exploration: tens of thousands (thorough: > 1M) generated programs per run covering every node kind the generator can derive, all operator pairs, dangling else, keyword case; version gating by fixed PHP 7-only snippets and generated flexible heredocs. PHP itself is not available as referee: 'the tree PHP prescribes' is the generator's transcription of the language reference.",
+    "Oracle transcription errors are possible in principle; every disagreement found so far was resolved against the PHP manual. Five valid-PHP shapes are excluded as open findings.")
+add("C04", "property-based testing (rapid): byte-level inputs with rewritten line terminators + generated programs whose expected token sequence/positions come from the generator's own layout; invariant oracle over all tokens (slice equality, independent line model, tiling)",
+    "Exploration: all tokens and free-floating tokens of every returned tree are checked against the source and an independent line model; tiling/classification/leaf values on error-free inputs; exact expected token streams for generated programs.",
+    "Two test-pinned deviations are tolerated by precise matchers (empty heredoc >= 7.3, /**x*/ classified as doc comment) and reported as KNOWN-FINDING.")
+add("C05", "property-based testing (rapid): generated programs under all trivia policies + error-free byte-level inputs; oracle: recorded node span == span recomputed from the node's own token positions with the documented conventions, nesting and sibling order",
+    "Exploration: every node of every error-free tree; coverage measured as distinct (kind < parent.slot, family) sites.",
+    "Four test-pinned span deviations are tolerated by matchers keyed on node kind/slot/family and reported as KNOWN-FINDING.")
+add("C06", "property-based testing (rapid): valid generated programs + one guaranteed-invalid edit (bracket insert/delete, truncation inside brackets, control byte) must report; error-shape invariants and callback/no-callback differential on arbitrary inputs",
+    "Exploration: guaranteed-invalid edits with an argument why no PHP grammar accepts them; error message/position/line/order invariants; silent parse => complete tiling tree; tree equality with and without callback incl. PHP 5 semantic-error programs.",
+    "Grammar leniency is deliberately not probed (only edits with a proof of invalidity). PHP 5 semantic errors arrive out of source order (open finding).")
+add("C07", "property-based testing (rapid): metamorphic - insert a malformed statement at a drawn boundary of a drawn statement list of a generated program and compare with the error-free parse (prefix preserved, parsing resumes); print-clause invariants on every recovered tree",
+    "Exploration: 18 malformed statements x all statement-list kinds x boundaries; prefix statements compared with tokens and positions; sentinel statement must be found after the error; recovered trees of byte-level inputs checked for invented/duplicated/reordered tokens.",
+    "Class bodies are not covered (no error production there, outside the property's lists).")
+add("C08", "property-based testing (rapid): metamorphic - the same generated program rendered under a reference and 2-5 drawn trivia policies must parse to the same structure; plus hand-written pairs for lexer-state-specific gaps",
+    "Exploration: all inter-token gaps where PHP permits trivia receive none / whitespace (LF, CRLF, tabs, VT, FF) / block, doc, line and hash comments; structure compared with the reference parse and the generator's model.",
+    "Three open findings (comment between ';' and '?>', comment inside __halt_compiler ( ) ;, lone CR) are excluded from the policies and replayed as KNOWN-FINDING.")
+add("C09", "exhaustive enumeration of a (major, minor) grid incl. boundary/huge values against an independent table + property-based differential testing of version pairs, version strings and ordering laws (rapid)",
+    "Exploration: the grid is enumerated completely; Validate, Parse and the table must agree; default version == 7.4; same-side versions agree on generated, heredoc-soup and byte-level inputs; New/Compare/InRange against reference implementations.",
+    "Values between the listed grid points are not enumerated.")
+add("C10", "property-based differential testing (rapid): programs generated from the common PHP 5/7 subset under all trivia policies, parsed under a 5.x and a 7.x version; trees must be equal in structure, tokens and positions",
+    "Exploration: the common subset is defined by the generator (PHP 5.6 constructs minus what the uniform-variable-syntax RFC regrouped and minus PHP 7-only syntax), not by asking the two parsers.",
+    "Shapes behind the PHP 5-only span findings are excluded (counted).")
+add("C11", "race-detector monitoring (go test -race) + property-based differential testing of generated job sets: concurrent results vs sequential reference; parse-twice determinism",
+    "Exploration: 8-40 pipelines on 2-32 goroutines over all 12 versions; every observable result compared with its sequential reference; any race report is a violation. Schedules are NOT enumerated: the harness does not control the Go scheduler.",
+    "Logical races on properly synchronised shared state are only caught if they change a result in the runs made.")
+add("C12", "exhaustive enumeration of node kind x child-slot subsets with marker leaves + property-based testing on parsed trees; oracle: recording visitor (generated from the ast.Visitor interface) vs reflective source-order walk",
+    "Exploration: exhaustive over all kinds and child-slot subsets (list lengths 0/1/3); all parsed trees of generated programs and byte-level inputs.",
+    "Relies on the field-order convention of pkg/ast/node.go (self-tested).")
+add("C13", "property-based stateful testing (rapid): histories of print/dump/traverse/resolve on one tree vs fresh-parse references, full-tree and slice-capacity fingerprints after every step, source-buffer equality; pointer-disjointness of two parses",
+    "Exploration: histories of up to 12 operations over generated, namespace-heavy and byte-level inputs.",
+    "Observers that mutate state outside the tree and the source buffer are not visible to the fingerprints.")
+add("C14", "property-based model-based testing (rapid): programs rendered from a namespace/import/reference model; reference name resolver over the model predicts the exact ResolvedNames map (keys by source offset)",
+    "Exploration: all reference positions x name forms x alias kinds x letter-case variants x namespace styles are populated (distribution in the evidence); missing, wrong and extra entries fail.",
+    "The reference resolver is my transcription of PHP's name-resolution rules as stated in the property.")
+add("C15", "exhaustive enumeration of node kind x slot subsets with unique marker tokens/free-floating tokens/leaves + property-based subtree replacement on parsed trees; oracle: reflective source order + independent canonical-lexeme table",
+    "Exploration: exhaustive for kinds with <= 10 slots, all/none/single/pair subsets for larger kinds, list lengths and separator-count variants; replacement locality on generated programs.",
+    "The canonical-lexeme table is hand-written from PHP syntax; free-text slots (heredoc labels) accept any identifier-like text.")
+add("C16", "exhaustive enumeration of node kind x slot subsets (hostile values, with/without tokens/positions) + property-based testing on parsed trees; oracle: go/parser + lock-step reader against the reflective schema",
+    "Exploration: exhaustive for kinds with <= 10 slots, all/none/single/pair subsets for larger kinds, random subsets, all four option combinations; dumps of parsed trees.",
+    "Empty non-nil lists may be dumped as empty literals or omitted (both accepted).")
+add("C17", "property-based testing (rapid): generated programs in three renderings; oracles: parse(F(src)) == parse(src) structurally, F canonical across whitespace-only re-layouts, F idempotent, no panic",
+    "Exploration: generated programs of both families; 14 formatter defects found this way were repaired in /repo (reproducers in corpus/C17), 2 are open findings whose triggers are switched off in the generator (counted).",
+    "The claim is narrow where constructs are switched off: alternative-syntax statements ending in a close tag, and an alternative-syntax if as unbraced body before else.")
+add("C18", "exhaustive enumeration of (block size, request count) + rapid state machine (Get/write/read-back) against a pointer-identity model",
+    "Exploration: every (block size 1..64, request count 0..5*size+3) history of both pools exhaustively, the default 1024 size around 1..6 boundaries, sizes around powers of two up to 2^17 crossing the 2^16 boundary, rapid-drawn sizes up to 8192 and a rapid state machine; each object is stamped and all earlier objects re-read.",
+    "Trusts Go pointer identity and the GC keeping old blocks alive; sizes > 2^17 not explored.")
 
 def main():
     props = [json.loads(l) for l in open(os.path.join(ROOT, "properties.jsonl"))]
     checks, na = [], []
     for p in props:
         pid = p["id"]
-        if pid in CHECKS:
-            c = CHECKS[pid]
+        if pid in C and os.path.isdir(os.path.join(ROOT, "checks", pid.lower())):
+            c = C[pid]
             checks.append({
                 "property_id": pid,
                 "quick_cmd": "python3 vdrive.py -prop %s -tier quick" % pid,
@@ -32,7 +81,7 @@ def main():
                 "technique": c["technique"],
             })
         else:
-            na.append({"property_id": pid, "reason": NOT_YET.get(pid, "check not built yet in this session (work in progress; see DESIGN.md for the planned generated-input check)")})
+            na.append({"property_id": pid, "reason": "check not built yet (work in progress; see DESIGN.md)"})
     m = {
         "version": 1,
         "setup_cmd": "python3 vdrive.py -setup",
@@ -44,9 +93,9 @@ def main():
             "add_only": True,
         },
         "engines": [{"name": "vdrive", "path": "/verif/vdrive.py", "serves_properties": [c["property_id"] for c in checks],
-                     "kind_free_text": "python driver: builds checks/<id> (Go test package using rapid + astx/phpgen) against /repo's working tree, runs seeded shards, merges statistics into evidence/<id>.json"}],
+                     "kind_free_text": "python driver: builds checks/<id> (Go test package using pgregory.net/rapid + astx/phpgen/oracle) against /repo's working tree, runs seeded shards under resource limits, merges statistics into evidence/<id>.json, prints VIOLATION / KNOWN-FINDING lines; exit 0/1/2"}],
         "checks": checks,
-        "notes": "All checks are generated-input searches against explicit oracles (see DESIGN.md). Exit 2 means inconclusive/infrastructure, never a violation.",
+        "notes": "All checks are generated-input searches against explicit oracles (see DESIGN.md). Exit 2 means inconclusive/infrastructure, never a violation. known_findings.json lists open findings (reported as KNOWN-FINDING lines, exit 0) and fixed defects (fix: commits in /repo).",
         "not_applicable": na,
     }
     with open(os.path.join(ROOT, "MANIFEST.json"), "w") as f:
